@@ -78,7 +78,7 @@ func execTapeProc(bin, prop, tier string, tape []uint32, single bool) (int, stri
 	req, _ := json.Marshal(execTapeReq{Property: prop, Tier: tier, Tape: tape})
 	cmd := exec.Command(bin, "exec-tape")
 	cmd.Stdin = bytes.NewReader(req)
-	cmd.Env = append(os.Environ(), "GORACE=halt_on_error=1 exitcode=66")
+	cmd.Env = append(os.Environ(), "GORACE=halt_on_error=1 exitcode=66 atexit_sleep_ms=0")
 	if single {
 		cmd.Env = append(cmd.Env, "GOMAXPROCS=1")
 	}
